@@ -27,17 +27,16 @@ ASSUMPTIONS = [
     'tables and lengths only produce warnings and are not part of the verdict',
 ]
 
-MUTATIONS = ('none', 'remove-required', 'exceed-maximum', 'not-allowed-child', 'unknown-element')
+MUTATIONS = ('none', 'remove-required', 'exceed-maximum', 'not-allowed-child', 'unknown-element', 'refused-edit')
 
 
 def plan(tier, seed):
-    specs = []
-    parts = 2 if tier == 'quick' else 4
-    for v in tables.versions():
-        for p in range(parts):
-            specs.append({'kind': 'structures', 'version': v, 'part': p, 'parts': parts,
-                          'modes': ['required'] if tier == 'quick' else ['required', 'all'],
-                          'per_kind': 1 if tier == 'quick' else 3})
+    # shards partition the structure NAMES; a shard validates each of its names in every version defining it, in one
+    # process (ascending or descending version order), so that anything remembered for one version is exposed by the next
+    parts = 24 if tier == 'quick' else 48
+    specs = [{'kind': 'structures', 'part': p, 'parts': parts,
+              'modes': ['required'] if tier == 'quick' else ['required', 'all'],
+              'per_kind': 1 if tier == 'quick' else 3} for p in range(parts)]
     specs.append({'kind': 'iti21'})
     return specs
 
@@ -255,6 +254,23 @@ def mutate(core, rng, v, m, placed, kind, node):
         populate_segment(s, v, other, 'required')
         parent.add(s)
         return [other], 'foreign segment %s under %s' % (other, parent.name)
+    if kind == 'refused-edit':
+        # a REFUSED replacement of a required child (element built for another version) must leave a valid message valid
+        cands = [(parent, c, el) for parent, c, el, path in placed if c.kind == 'SEG' and c.name != 'MSH' and
+                 len(parent.children.indexes.get(c.name, [])) == 1]
+        if not cands:
+            return None
+        parent, c, el = rng.choice(cands)
+        vs = tables.versions()
+        ov = [x for x in vs if x != v and tables.segments(x).get(c.name)]
+        if not ov:
+            return None
+        other = core.Segment(c.name, version=ov[len(c.name) % len(ov)])
+        try:
+            setattr(parent, c.name.lower(), other)
+        except Exception:
+            return [], 'refused replacement of %s under %s' % (c.name, parent.name)
+        return None
     if kind == 'unknown-element':
         segs = [(el, c) for parent, c, el, path in placed if c.kind == 'SEG']
         el, c = rng.choice(segs)
@@ -276,6 +292,12 @@ def judge(core, rng, v, name, node, mode, kind, refkind, rec, reference=None):
         return
     desc = None
     names = None
+    errors_before = None
+    if kind == 'refused-edit':
+        try:
+            errors_before = report(m)[0]
+        except Exception:
+            errors_before = None
     if kind != 'none':
         try:
             res = mutate(core, rng, v, m, placed, kind, node)
@@ -297,7 +319,11 @@ def judge(core, rng, v, name, node, mode, kind, refkind, rec, reference=None):
         return
     errors = r[0]
     rec.count('verdicts:%s' % kind)
-    if kind == 'none':
+    if kind == 'refused-edit':
+        if errors_before is not None and errors != errors_before:
+            rec.violation('refused-edit-changed-the-verdict', case, {'mutated': desc, 'before': errors_before[:3],
+                                                                    'after': errors[:3]}, row=row)
+    elif kind == 'none':
         if errors:
             dup = duplicate_names(node)
             cause = 'conforming-instance-rejected'
@@ -324,12 +350,17 @@ def duplicate_names(node):
 def run_structures(spec, rec):
     from hl7apy import core
     install_contract()
-    v = spec['version']
-    rng = gen.rng_for(spec['seed'], 'c04', v, spec['part'])
-    msgs = tables.messages(v)
-    names = [n for i, n in enumerate(sorted(msgs)) if i % spec['parts'] == spec['part']]
-    identity = None
-    for name in names:
+    rng = gen.rng_for(spec['seed'], 'c04', spec['part'])
+    vs = tables.versions()
+    allnames = sorted({n for v in vs for n in tables.messages(v)})
+    mine = [n for i, n in enumerate(allnames) if i % spec['parts'] == spec['part']]
+    todo = []
+    for j, name in enumerate(mine):
+        having = [v for v in vs if name in tables.messages(v)]
+        todo.extend((name, v) for v in (having[::-1] if j % 2 else having))
+    for name, v in todo:
+        msgs = tables.messages(v)
+        rec.seen('versions', v)
         node = msgs[name]
         why = structref.unusable_reason(v, node)
         if why is None and structref.msh9_for(v, name) is None:
@@ -351,8 +382,7 @@ def run_structures(spec, rec):
                   reference=prof)
         if rec.counters.get('structures_used', 0) <= 1:
             rec.sample({'version': v, 'structure': name, 'modes': spec['modes'], 'mutations': list(MUTATIONS)})
-    drain(rec, {'version': v, 'structure': 'any'})
-    rec.seen('versions', v)
+    drain(rec, {'structure': 'any'})
 
 
 def run_iti21(spec, rec):
